@@ -9,6 +9,21 @@ abbrev TCell := Nat × List Nat
 
 def tagOp (t : Nat) : Op TCell := .elem fun c => (c.1, c.2 ++ [t])
 
+/-- A first-order name of a deferred operation of THIS driver (the `Op` type holds functions, which cannot be
+compared): an element-wise operation is named by what it appends to an empty trace — `tagOp t ↦ [t]`, so distinct
+tokens have distinct names —, a channel selection by its selector. Two operation lists of the driver are equal iff
+their names are equal item by item. -/
+abbrev OpName := Bool × List Nat × Nat × List Int × Option Int × Option Int × Int
+
+def opName : Op TCell → OpName
+  | .elem f => (true, (f (0, [])).2, 0, [], none, none, 0)
+  | .cols .all => (false, [], 0, [], none, none, 0)
+  | .cols (.idx l) => (false, [], 1, l, none, none, 0)
+  | .cols (.slice a b st) => (false, [], 2, [], a, b, st)
+
+/-- the operation lists of all readers, reader by reader, operation by operation -/
+def heapNames (h : Heap TCell) : List (List OpName) := h.map fun ops => ops.map opName
+
 def mkTParts (lens : List Nat) (nch : Nat) : List (List (List TCell)) :=
   (mkParts lens nch).map fun p => p.map fun row => row.map fun i => (i, [])
 
@@ -39,12 +54,12 @@ def runC02 (op : String) (j : Json) : R Json := do
         let r ← getNat s "from"; let t ← getNat s "tok"
         h := (derive h r (tagOp t)).1
         st := run st (appendOpProgram st r (tagOp t))
-        agree := agree && (st.abs.map List.length == h.map List.length)
+        agree := agree && (heapNames st.abs == heapNames h)
       | "cols" =>
         let r ← getNat s "from"; let c ← fld s "cols" >>= asColSel
         h := (derive h r (.cols c)).1
         st := run st (appendOpProgram st r (.cols c))
-        agree := agree && (st.abs.map List.length == h.map List.length)
+        agree := agree && (heapNames st.abs == heapNames h)
       | "eval" =>
         let r ← getNat s "reader"; let it ← fld s "item" >>= asItem
         let res := match s.getObjVal? "cols" with
@@ -54,8 +69,13 @@ def runC02 (op : String) (j : Json) : R Json := do
           | .error _ => pure (eval st.abs parts r it)
         outs := outs ++ [jEval (← res)]
       | _ => throw s!"C02 step {k}"
+    -- `store_refines_heap`: after EVERY derivation the operation lists of all readers of the object store equal those
+    -- of the abstract heap, operation by operation (names of `opName`), not only in number and length
     pure (Json.mkObj [("evals", Json.arr outs.toArray), ("n_readers", jNat st.readers.length),
-                      ("store_refines_heap", Json.bool agree)])
+                      ("store_refines_heap", Json.bool agree),
+                      ("ops", Json.arr ((heapNames st.abs).map fun ops => Json.arr (ops.map fun n =>
+                          if n.1 then Json.mkObj [("tok", jNats n.2.1)]
+                          else Json.mkObj [("cols", jNat n.2.2.1)]).toArray).toArray)])
   | _ => .error s!"C02: unknown op {op}"
 
 end PhyVerif.Driver
